@@ -105,7 +105,7 @@ pub fn decode_single(buf: &[u8], header: &RtpsMessageHeader) -> RtpsMessageRead 
     }
 }
 
-/// A SequenceNumberSet value with an arbitrary base, the given (concrete) numBits and an arbitrary
+/// A SequenceNumberSet value with the given (concrete) base and numBits and an arbitrary
 /// membership bitmap, obtained from the REAL element decoder applied to a little-endian wire image
 /// written here (base, numBits, ceil(numBits/32) symbolic words; bits at offsets >= numBits are
 /// cleared and the bit at offset numBits-1 is set, which is exactly the shape SequenceNumberSet::new
@@ -114,6 +114,9 @@ pub fn decode_single(buf: &[u8], header: &RtpsMessageHeader) -> RtpsMessageRead 
 /// and cursor position of the encoder - symbolic, which does not finish (> 900 s).
 pub fn sn_set<const W: usize>(base: i64, nb: u32) -> SequenceNumberSet {
     assert!(W == ((nb + 31) / 32) as usize && W <= 8, "harness: word count");
+    // `base` must be CONCRETE: the decoder rejects sets whose last member exceeds i64::MAX, and with a symbolic base that
+    // check merges an error path into the result, which makes numBits (and every encoder length) symbolic for CBMC
+    assert!(nb == 0 || base.checked_add(nb as i64 - 1).is_some(), "harness: set not representable");
     let mut b = [0u8; 44];
     let hi = ((base >> 32) as i32).to_le_bytes();
     let lo = (base as u32).to_le_bytes();
